@@ -4,7 +4,7 @@
    observed results on exactly the arguments they were called with come as tables. The handler
    sets of FlowReader.stream are translated from the source (Gen/FlowReaderExcept.v). *)
 From Coq Require Import List Bool NArith ZArith.
-From MV Require Import Base.Bytes Model.Tnet Gen.FlowReaderExcept.
+From MV Require Import Base.Bytes Model.Tnet Gen.FlowReaderExcept Model.ConnLiterals Gen.ConnectionLiterals.
 Import ListNotations.
 
 Definition ftable := list (bytes * option (bytes * option Z)).
@@ -47,6 +47,9 @@ Inductive case :=
 | Dumps (v : tv) (impl : bytes)
 | Load (depth : nat) (ft : ftable) (file : bytes) (impl : outcome)
 | Pop (depth : nat) (ft : ftable) (data : bytes) (impl : outcome)
+(* Connection(tls_version = v / transport_protocol = v): did get_state and from_state accept it *)
+| TlsVersionField (v : option bytes) (impl_ok : bool)
+| TransportField (v : bytes) (impl_ok : bool)
 | Stream (depth : nat) (ft : ftable) (fs : stable) (file : bytes) (impl_values : list tv) (impl_final : final).
 
 Definition check_case (c : case) : bool :=
@@ -54,6 +57,8 @@ Definition check_case (c : case) : bool :=
   | Dumps v impl => bytes_eqb (dumps v) impl
   | Load depth ft file impl => option_eqb outcome_eqb (of_load (load (flookup ft) depth file)) (Some impl)
   | Pop depth ft data impl => option_eqb outcome_eqb (of_pop (pop (flookup ft) depth data)) (Some impl)
+  | TlsVersionField v ok => Bool.eqb (opt_literal_ok tls_version_src v) ok
+  | TransportField v ok => Bool.eqb (literal_ok transport_protocol_src v) ok
   | Stream depth ft fs file vals fin =>
       let r := stream (flookup ft) outer_gen inner_gen (slookup fs) depth file in
       list_eqb tv_eqb (fst r) vals && final_eqb (snd r) fin
